@@ -202,6 +202,11 @@ func (b *listParser) Continue(node ast.Node, reader text.Reader, pc Context) Sta
 			if typ != notList && match[1]-offset < 4 {
 				marker := line[match[3]-1]
 				if !list.CanContinue(marker, typ == orderedList) {
+					if lastIsEmpty && indent >= offset && pc.Get(emptyListItemWithBlankLines) == nil {
+						// the last item began with a blank line and this line is indented to its
+						// content: a list of another type that belongs to the item
+						return Continue | HasChildren
+					}
 					return Close
 				}
 				// Thematic Breaks take precedence over lists
